@@ -49,9 +49,19 @@ def _substream_counts_bounded(ctx: Ctx, f: Func) -> bool:
             for st in n.orelse:
                 for x in ast.walk(st):
                     if isinstance(x, ast.If) and isinstance(x.test, ast.Compare) and isinstance(x.test.ops[0], ast.Gt) and isinstance(x.test.comparators[0], ast.Constant) \
-                            and x.test.comparators[0].value == 1 and "num_unpackstreams_folders" in norm(x.test.left) \
+                            and x.test.comparators[0].value == 1 and ("num_unpackstreams_folders" in norm(x.test.left) or _iterates_counts(f, x, x.test.left)) \
                             and any(isinstance(r, ast.Raise) for r in x.body):
                         return True
+    return False
+
+
+def _iterates_counts(f: Func, at: ast.AST, e: ast.AST) -> bool:
+    """is `e` the loop variable of an enclosing `for ..., e in enumerate(<...num_unpackstreams_folders>)` / `for e in <...>`?"""
+    if not isinstance(e, ast.Name):
+        return False
+    for lp in q.enclosing_loops(f, at):
+        if isinstance(lp, ast.For) and "num_unpackstreams_folders" in norm(lp.iter) and any(isinstance(t, ast.Name) and t.id == e.id for t in ast.walk(lp.target)):
+            return True
     return False
 
 
